@@ -695,7 +695,33 @@ pub fn c15_check(a_src: &str, b_src: &str) -> Option<Vec<String>> {
 pub const C15_ATOMS: &[&str] = &[
     "%let ", "%put ", "%if ", "%then ", "%do", "%end", "%macro ", "%mend", "%m", "(", ")", "=",
     ",", ";", " ", "\n", "a", "1", "&v", "'", "\"", "/*c*/", "*", "%*", "datalines", "x", "/",
-    "%", "+", "$",
+    "%", "+", "$", "%str(", "%%", "''",
+];
+
+/// closed statements that leave accumulated state behind (non-empty literal buffer, several
+/// lines, errors already reported): what must not leak into the continuation
+pub const C15_STATEFUL_A: &[&str] = &[
+    "x='a''b';",
+    "x=\"a\"\"b\";",
+    "x='41'x;",
+    "%put %str(%%);",
+    "%put %nrstr(%();",
+    "%let a=%str(%'x);",
+    "x=1;\n;",
+    "x=1;\n\ny=2;",
+    "/*c\nd*/",
+    "* c\n;",
+    "%* c;",
+    "%m(1);",
+    "data a;\nrun;",
+    "x='é€';",
+    "x=1e;",
+    "x=0ffz;",
+    "%let a=%eval(1+);",
+    "%let =1;",
+    "%put \"&v\"\"a\";",
+    "datalines;\n1 2\n;",
+    "cards4;\na;b\n;;;;",
 ];
 
 fn c15_run(cfg: &Config) -> PropRun {
@@ -736,6 +762,17 @@ fn c15_run(cfg: &Config) -> PropRun {
             }
         }
     }
+    for p in C15_STATEFUL_A {
+        if let Outcome::Ok(r) = run_lexer(p) {
+            if closed_prefix(p, &r) {
+                a_list.push((*p).to_string());
+            } else {
+                // keep the list honest: every entry is meant to be a closed prefix
+                eprintln!("C15_STATEFUL_A entry is not a closed prefix: {p:?}");
+                std::process::exit(2);
+            }
+        }
+    }
     a_list.sort();
     a_list.dedup();
     // 2. all B of <= m atoms
@@ -765,6 +802,9 @@ fn c15_run(cfg: &Config) -> PropRun {
         }
         // longer closed prefixes only pair with the shorter continuation set, see below
     }
+    // generated programs as continuations (they contain %str sections, strings, calls, ...)
+    b_list.extend(crate::grammar::programs(if q { 1 } else { 2 }, false));
+    b_list.extend(C15_STATEFUL_A.iter().map(|s| (*s).to_string()));
     b_list.sort();
     b_list.dedup();
     // cache canon(B)
